@@ -783,6 +783,81 @@ fn monitor_pairs(ctx: &mut Ctx) {
 				if reset && t1v > 0.81 {
 					return Err(format!("clock commands [{}] included a stop but the time was not reset: {} after one 64-frame callback", names.join(", "), t1v));
 				}
+				// exactly once, and at once: a running clock then advances by exactly speed x time (a reset applied a
+				// callback late would take time away again)
+				if want_ticking && ((t2v - t1v) - 8.0).abs() > 1e-9 {
+					return Err(format!("clock commands [{}] issued between two callbacks (clock {}): over the following 640 frames at 100 ticks/s the clock moved from {} to {} (by {}, expected 8): a command was applied late or twice", names.join(", "), if warm { "running" } else { "never started" }, t1v, t2v, t2v - t1v));
+				}
+				if want_ticking && (reset || !warm) && (t1v - 0.8).abs() > 1e-9 {
+					return Err(format!("clock commands [{}] (clock {}): one 64-frame callback after a (re)start from zero the clock reads {}, expected 0.8", names.join(", "), if warm { "running" } else { "never started" }, t1v));
+				}
+			}
+			// ---- several playback-state commands to ONE sound in the same interval: all of them are consumed by the next
+			// callback; afterwards the state only moves by fades completing (a command surfacing a callback later would
+			// show as e.g. Stopping -> Pausing)
+			{
+				let mut rig = base_rig(MainTrackBuilder::new());
+				rig.watch_alloc = false;
+				let mut h = rig.mgr.play(crate::probes::dc_sound(SR, 64, 0.1).loop_region(..)).map_err(|_| "play")?;
+				rig.callback(64);
+				if r.chance(0.3) {
+					h.pause(inst());
+					rig.callback(64);
+				}
+				let mut names = vec![];
+				for _ in 0..r.usize_in(2, 3) {
+					let d = Tween { duration: Duration::from_secs_f64(*r.pick(&[0.0, 3.0, 6.0]) * 64.0 / SR as f64), ..Default::default() };
+					match r.below(3) {
+						0 => {
+							h.pause(d);
+							names.push(format!("pause({:?})", d.duration));
+						}
+						1 => {
+							h.resume(d);
+							names.push(format!("resume({:?})", d.duration));
+						}
+						_ => {
+							h.stop(d);
+							names.push(format!("stop({:?})", d.duration));
+						}
+					}
+				}
+				rig.callback(64);
+				let mut st = h.state();
+				let mut trace = vec![st];
+				for _ in 0..10 {
+					rig.callback(64);
+					let n = h.state();
+					let ok = n == st || matches!((st, n), (PlaybackState::Stopping, PlaybackState::Stopped) | (PlaybackState::Pausing, PlaybackState::Paused) | (PlaybackState::Resuming, PlaybackState::Playing));
+					trace.push(n);
+					if !ok {
+						return Err(format!("commands [{}] issued to one sound between two callbacks: the state then went {:?} (only fades completing are possible once all commands have been consumed: a command was applied a callback late)", names.join(", "), trace));
+					}
+					st = n;
+				}
+			}
+			// ---- a second set() of a tweener with the same target but another tween replaces the first (last write wins)
+			{
+				let mut rig = base_rig(MainTrackBuilder::new());
+				rig.watch_alloc = false;
+				let mut tw = rig.mgr.add_modulator(TweenerBuilder { initial_value: 0.0 }).map_err(|_| "tweener")?;
+				let map = Mapping { input_range: (0.0, 10.0), output_range: (Decibels(-40.0), Decibels(0.0)), easing: Easing::Linear };
+				let _s = rig.mgr.play(crate::probes::dc_sound(SR, 64, 0.1).loop_region(..).volume(Value::FromModulator { id: tw.id(), mapping: map })).map_err(|_| "play")?;
+				rig.callback(64);
+				let target = r.f64_in(2.0, 10.0);
+				let same_interval = r.chance(0.5);
+				tw.set(target, Tween { duration: Duration::from_secs(5), ..Default::default() });
+				if !same_interval {
+					rig.callback(64);
+				}
+				tw.set(target, inst());
+				rig.callback(64);
+				let o = rig.callback(64).to_vec();
+				let got = o[o.len() - 2];
+				let want = 0.1 * Decibels(-40.0 + 4.0 * target as f32).as_amplitude();
+				if (got - want).abs() > 1e-5 * want.max(1e-3) {
+					return Err(format!("tweener.set({t}, 5 s) followed {} by tweener.set({t}, instant): two callbacks later a volume mapped from it gives {} instead of {} — the second command was not applied", if same_interval { "in the same interval" } else { "one callback later" }, got, want, t = target));
+				}
 			}
 			// ---- a command written between play() and the sound's first callback is in effect in that callback, wherever it plays
 			{
